@@ -152,6 +152,40 @@ def long_path_task(task):
     return dict(kind='long', k=k, n=n, u=u, newest=res, violations=[(viol.key, viol.what)] if viol else [])
 
 
+def through_explainer_task(task):
+    """The reservoir driven through an explainer whose default imputer reads its live rows: whatever the draws, the
+    reservoir must remain a k-subset of the stream (complete, unmodified arrivals).  Deviation-bounded reachability
+    (no probabilities): <= 1 non-default draw around the two base executions."""
+    _, expl, k, n = task
+    from ixai.explainer import IncrementalPFI, IncrementalSage
+    from ixai.storage import UniformReservoirStorage
+
+    def driver(run):
+        storage = UniformReservoirStorage(size=k, store_targets=False)
+        names = ['a', 'b', 'c']
+        cls = IncrementalPFI if expl == 'pfi' else IncrementalSage
+        ex = cls(lambda x: {'output': x['a'] - 2 * x['b'] + x['c']}, lambda y, p: (y - p['output']) ** 2, names,
+                 storage=storage, n_inner_samples=1, smoothing_alpha=0.5)
+        for t in range(1, n + 1):
+            ex.explain_one({'a': 10 * t + 1, 'b': 10 * t + 2, 'c': 10 * t + 3}, t)
+            rows = list(storage.get_data()[0])
+            ok = len(rows) == min(t, k) and len({r['a'] for r in rows}) == len(rows) and all(
+                r['a'] % 10 == 1 and r['b'] == r['a'] + 1 and r['c'] == r['a'] + 2 and r['a'] <= 10 * t + 1 for r in rows)
+            if not ok:
+                raise Violation("C08/not-a-k-subset", f"UniformReservoirStorage(size={k}) driven through Incremental"
+                                f"{expl.upper()} (default imputer): after {t} observations it holds {rows}, which is not a "
+                                f"set of min(n,k) distinct observations of the stream", {})
+        return None
+    viol = []
+    n_exec = 0
+    with _np_quiet():
+        for dl in (False, True):
+            st = choice.explore(driver, bound=1, float_policy=lambda i: ((0.5, 0.05, 0.95), None), default_last=dl)
+            n_exec += st.executions
+            viol += [(v[0], v[1]) for v in st.violations]
+    return dict(kind='through', k=k, n=n, u=expl, newest=n_exec, violations=viol[:1])
+
+
 def plan(tier):
     if tier == 'thorough':
         return [(1, 2, 24), (1, 3, 13), (2, 3, 16), (2, 4, 9), (1, 4, 7), (3, 4, 12), (3, 5, 6), (2, 5, 5), (1, 5, 4),
@@ -180,13 +214,15 @@ def main(rep):
     long_tasks = [('long', k, n, u, w) for (k, n, w) in ((1000, 6000 if rep.tier != 'thorough' else 20000, 1500), (400, 5000, 1500),
                                                         (100, 4000, 2500))
                   for u in (0.5, 0.05, 0.95, 0.3)]
-    long_res = choice.pmap(long_path_task, long_tasks, chunksize=1)
+    through = [('through', e, k, 5) for e in ('pfi', 'sage') for k in (1, 2, 3)]
+    long_res = choice.pmap(lambda t: through_explainer_task(t) if t[0] == 'through' else long_path_task(t),
+                           long_tasks + through, chunksize=1)
     for r in long_res:
         rep.add(evaluations=1, transitions=r['n'])
         for key, what in r['violations']:
             rep.violation(key, what, {'k': r['k'], 'n': r['n'], 'base': 0, 'long': [r['k'], r['n'], r['u']]})
     rep.sample({'long_paths': [{'k': r['k'], 'n': r['n'], 'constant_draw': r['u'], 'newest_stored_arrival': r['newest']}
-                               for r in long_res[:4]]}, limit=12)
+                               for r in long_res[:4] if r['kind'] == 'long']}, limit=12)
     raw = choice.pmap(run_task, tasks, chunksize=4)
     merged = {}
     for r in raw:
